@@ -36,6 +36,7 @@ type Engine struct {
 	repo      string
 	loadSecs  float64
 	globalStoreLog map[string][]string
+	curProp string
 }
 
 func NewEngine(repo string, specDir string) (*Engine, error) {
